@@ -224,10 +224,15 @@ def gen_consts():
         m = re.search(r"fn get_multiplicator.*?match[^{]*\{(.*?)\n\t\};", dur, re.S)
         if not m:
             raise GenError("get_multiplicator match not found")
-        units = re.findall(r"Some\('(.)'\)\s*=>\s*([0-9_]+)", m.group(1))
-        dflt = re.search(r"_\s*=>\s*([0-9_]+)", m.group(1))
-        if not units or not dflt:
-            raise GenError("unit table not recognised")
+        units = re.findall(r"Some\('(.)'\)\s*=>\s*([0-9_]+)\s*,", m.group(1))
+        dflt = re.search(r"_\s*=>\s*([0-9_]+)\s*,", m.group(1))
+        # EVERY arm must be `pattern => plain literal,`: an arm of another shape (an expression, a guard, an
+        # or-pattern) would otherwise be dropped or half-read without notice
+        arms = [a for a in (x.split("//")[0].strip() for x in m.group(1).split("\n")) if a]
+        plain = re.compile(r"^(Some\('.'\)|_)\s*=>\s*[0-9_]+\s*,$")
+        odd = [a for a in arms if not plain.match(a)]
+        if not units or not dflt or odd or len(arms) != len(units) + 1:
+            raise GenError("unit table not recognised%s" % (" (arm %r)" % odd[0] if odd else ""))
         out = ["def unitTable : List (Char × Nat) := [%s]" % ", ".join(
             "('%s', %d)" % (u, _eval_int(v)) for u, v in units),
             "def unitDefault : Nat := %d" % _eval_int(dflt.group(1))]
@@ -292,6 +297,7 @@ def gen_global_merge():
 
 def gen_trust():
     hits = []
+    adders = []
     disabled = False
     base = os.path.join(vlib.REPO, "acmed", "src")
     for root, _, files in os.walk(base):
@@ -299,8 +305,16 @@ def gen_trust():
             if not fn.endswith(".rs"):
                 continue
             p = os.path.join(root, fn)
+            fn_name = "?"
             for ln, line in enumerate(open(p), 1):
                 code = line.split("//")[0]
+                mfn = re.search(r"\bfn\s+(\w+)", code)
+                if mfn:
+                    fn_name = mfn.group(1)
+                # every place that widens or replaces the trust anchors, with the function it sits in
+                if re.search(r"\.add_root_certificate\s*\(|use_preconfigured_tls|\.identity\s*\(|tls_certs_only|"
+                             r"\.use_rustls_tls\s*\(", code):
+                    adders.append("%s::%s" % (os.path.relpath(p, base)[:-3].replace("/", "::"), fn_name))
                 if re.search(r"danger_accept_invalid_(certs|hostnames)", code):
                     hits.append("%s:%d: %s" % (os.path.relpath(p, vlib.REPO), ln, code.strip()))
                 if re.search(r"tls_built_in_(root|native|webpki)_certs\(\s*false\s*\)", code):
@@ -309,7 +323,10 @@ def gen_trust():
     text = ("/- GENERATED by /verif/py/gen.py from a scan of /repo/acmed/src/**/*.rs on every run. Do not edit. -/\n"
             "namespace AcmedVerif.Gen\n\n"
             "def dangerCalls : List String := %s\n"
-            "def builtinRootsDisabled : Bool := %s\n\nend AcmedVerif.Gen\n" % (_lstr(hits), "true" if disabled else "false"))
+            "def builtinRootsDisabled : Bool := %s\n"
+            "/-- functions of acmed/src in which trust anchors are added or the TLS back end is replaced -/\n"
+            "def rootAdders : List String := %s\n\nend AcmedVerif.Gen\n"
+            % (_lstr(hits), "true" if disabled else "false", _lstr(adders)))
     vlib.write_if_changed(os.path.join(vlib.LEAN, "AcmedVerif", "Gen", "Trust.lean"), text)
     return hits
 
